@@ -67,8 +67,9 @@ def generate(unit, repo='/repo', import_mode=False, strip_body=(), extra_consts=
         normalized_by = []
         if not exact and not import_mode:
             # restructured control flow: sound syntactic rewrites (R30-R33) of the CURRENT code towards the snapshot's shape
-            cur, normalized_by = X.directed_normalize(cur, E)
-            if normalized_by: exact = X.strs(E) == X.strs(cur) and False
+            import copy
+            u2 = copy.deepcopy({k_: v_ for k_, v_ in unit.items() if k_ != 'rewrite_opts'}); u2['rewrite_opts'] = unit.get('rewrite_opts')
+            cur, normalized_by = X.directed_normalize(rts, E, lambda ts_: X.real_pipeline(ts_, u2, path))
         toks, n_edits, edits = X.rebase(E, G, cur)
         stripped = False
         if path in strip_body:
